@@ -32,6 +32,15 @@ pub struct Case {
     pub cfg: Cfg,
     pub reqs: Vec<Req>,
     pub debug_points: Vec<u8>,
+    /// the session cookie's name contains a character that the processor percent-encodes on the wire
+    /// (`<name> x`): only used by the recorded reproduction of a finding, never generated
+    #[serde(default)]
+    pub odd_name: bool,
+}
+
+/// The four cookie names of a case (the session cookie's own name may be the odd one).
+pub fn names(c: &Case) -> Vec<String> {
+    (0..4).map(|n| if c.odd_name && n == c.name as usize % 4 { format!("{} x", NAMES[n]) } else { NAMES[n].to_string() }).collect()
 }
 
 thread_local! {
@@ -44,7 +53,7 @@ pub fn old_processor(c: &Case) -> Processor {
     let mut pc = ProcessorConfig::default();
     pc.percent_encode = c.percent_encode;
     for r in 0..3usize {
-        let names: Vec<String> = (0..4).filter(|n| c.assign[*n] as usize == r + 1).map(|n| NAMES[n].to_string()).collect();
+        let names: Vec<String> = (0..4).filter(|n| c.assign[*n] as usize == r + 1).map(|n| names(c)[n].clone()).collect();
         if names.is_empty() {
             continue;
         }
@@ -73,7 +82,7 @@ pub fn processor(c: &Case) -> Processor {
     for r in 0..3usize {
         let names: Vec<String> = (0..4)
             .filter(|n| c.assign[*n] as usize == r + 1)
-            .map(|n| NAMES[n].to_string())
+            .map(|n| names(c)[n].clone())
             .collect();
         if names.is_empty() {
             continue;
@@ -161,7 +170,7 @@ pub fn leaks(debug: &str, id: &str) -> Option<String> {
 /// Session configuration, cookie processor and cookie name of a case.
 pub fn session_setup(c: &Case) -> (pavex_session::SessionConfig, Processor, &'static str) {
     let mut config = c.cfg.session_config();
-    let name = NAMES[c.name as usize % 4];
+    let name: &'static str = if c.odd_name { Box::leak(names(c)[c.name as usize % 4].clone().into_boxed_str()) } else { NAMES[c.name as usize % 4] };
     config.cookie.name = name.to_string();
     config.cookie.domain = c.domain.map(|d| DOMAINS[d as usize % 2].to_string());
     config.cookie.path = c.path.map(|p| PATHS[p as usize % 3].to_string());
@@ -333,7 +342,7 @@ async fn run(c: &Case) -> CaseResult {
                         for s in secrets {
                             if wire.value.contains(&s) {
                                 return Err(Fail::new(
-                                    "wire-plaintext",
+                                    if c.odd_name { "wire-plaintext:cookie-name-needs-percent-encoding" } else { "wire-plaintext" },
                                     format!("request #{ri}: the cookie is configured to be encrypted but `{s}` is readable in `{}`", em.set_cookie),
                                 ));
                             }
@@ -342,7 +351,7 @@ async fn run(c: &Case) -> CaseResult {
                         || wire.value == cookie_percent_encode(&em.plain_value)
                     {
                         return Err(Fail::new(
-                            "wire-unsigned",
+                            if c.odd_name { "wire-unsigned:cookie-name-needs-percent-encoding" } else { "wire-unsigned" },
                             format!("request #{ri}: the cookie is configured to be signed but the wire value carries no signature: `{}`", em.set_cookie),
                         ));
                     }
@@ -445,6 +454,7 @@ pub fn case_strategy() -> impl Strategy<Value = Case> {
                 cfg,
                 reqs,
                 debug_points,
+                odd_name: false,
             },
         )
 }
